@@ -6,6 +6,7 @@ import PhysisModel.Proofs.Pbd
 import PhysisModel.Proofs.HavokInt
 import PhysisModel.Proofs.HavokBits
 import PhysisModel.Proofs.HavokExtract
+import PhysisModel.Proofs.HavokFlat
 import PhysisModel.Proofs.Sklb
 /-!
 # C16 — auxiliary asset decoders return the stored records
@@ -278,6 +279,41 @@ theorem c16_type_table (p : Spec.HavokTag.Enc) (ts : List Spec.HavokTag.TypeDecl
 /-- the standard table: seven declarations, `hkaSkeleton` ends up with 2 inherited + 8 own members -/
 example : Havok.buildTypes [Havok.objectType] Spec.HavokTag.stdTypes = some Havok.stdHTypes ∧
     (∀ t ∈ Spec.HavokTag.stdTypes, Havok.typeOK t = true) ∧ Havok.hSkeleton.all.length = 10 := by decide
+
+/-- ARBITRARY type tables, objects with flat members: for an object of any declared type (any number
+of inherited and own members of any kind) whose *present* members are scalars (BYTE, INT, REAL, STRING,
+OBJECT) or arrays of those or of vectors, with any subset of the other members absent (`flatAllOK`,
+`flatData ≠ none`: every absent member has a default), the tag loop remembers exactly the object the
+file describes - stored values, defaults for absent members (`Havok.flatData`) -, takes over the
+encoder's string table, records every object index it read (`Havok.boundAll`) and continues exactly
+behind the object; for every packed-integer width and back-reference policy.  (Objects with STRUCT
+arrays: proved for the standard classes only, see `c16_skeleton_partial`.) -/
+theorem c16_object_flat (p : Spec.HavokTag.Enc) (fuel : Nat) (st : Havok.St) (decls : List Spec.HavokTag.TypeDecl)
+    (ti : Nat) (t : Havok.HType) (vs : List Spec.HavokTag.Val) (items : List Spec.HavokTag.Item) (r : Bytes)
+    (data : List (Nat × Havok.Value)) (hver : st.ver = 3) (hti : ti < 2 ^ 31) (htype : st.types[ti]? = some t)
+    (hall : t.all = (Spec.HavokTag.membersOf decls ti).map Havok.toM) (hlen : vs.length + 7 < 2 ^ 32)
+    (hok : Havok.flatAllOK (Spec.HavokTag.membersOf decls ti) vs)
+    (hd : Havok.flatData (Spec.HavokTag.membersOf decls ti) vs 0 = some data) :
+    Havok.tagLoop (fuel + 1) st (Spec.HavokTag.encItems p st.strings decls (.obj ti vs :: items) ++ r) =
+      Havok.tagLoop fuel
+        { st with strings := (Spec.HavokTag.encFields p st.strings
+                    ((Spec.HavokTag.membersOf decls ti).map (·.ty)) vs).2,
+                  refBound := Havok.boundAll st.refBound (Spec.HavokTag.membersOf decls ti) vs,
+                  objs := st.objs ++ [⟨t, data⟩] }
+        (Spec.HavokTag.encItems p (Spec.HavokTag.encFields p st.strings
+            ((Spec.HavokTag.membersOf decls ti).map (·.ty)) vs).2 decls items ++ r) :=
+  Havok.tagLoop_object_flat p fuel st decls ti t vs items r data hver hti htype hall hlen hok hd
+
+/-- the animation container of the standard file: two absent INTs (defaults 0), one reference array,
+four absent reference arrays (defaults empty) -/
+example : Havok.flatAllOK (Spec.HavokTag.membersOf Spec.HavokTag.stdTypes 5)
+      [.absent, .absent, .refs [3], .absent, .absent, .absent, .absent] ∧
+    Havok.hContainer.all = (Spec.HavokTag.membersOf Spec.HavokTag.stdTypes 5).map Havok.toM := by
+  refine ⟨?_, by decide⟩
+  rw [show Spec.HavokTag.membersOf Spec.HavokTag.stdTypes 5 =
+    Spec.HavokTag.tReferenced.members ++ Spec.HavokTag.tContainer.members from by decide]
+  simp [Havok.flatAllOK, Havok.flatOK, Spec.HavokTag.tReferenced, Spec.HavokTag.tContainer, Spec.HavokTag.Val.present,
+    Spec.HavokTag.isArray, Spec.HavokTag.baseType]
 
 /-! ### recorded finding `havok-unimplemented-member-kind` -/
 
